@@ -89,8 +89,8 @@ def run(cmd, env=None, cwd=None, timeout=None, out=None, mem_gb=None):
 # -------------------------------------------------------------------------------------------------
 # step 1: codegen
 # -------------------------------------------------------------------------------------------------
-def codegen(check_id, geo, filters, workdir, tier="quick"):
-    target = os.path.join(workdir, "t" + geo)
+def codegen(check_id, geo, filters, workdir, tier="quick", tag=""):
+    target = os.path.join(workdir, "t" + geo + tag)
     # force a rebuild of the crate itself (never trust a stale artifact); dependencies stay cached
     for d in glob.glob(os.path.join(target, "kani", "*", "debug", "build", "mrecordlog")):
         shutil.rmtree(d, ignore_errors=True)
@@ -106,7 +106,7 @@ def codegen(check_id, geo, filters, workdir, tier="quick"):
            "--no-assertion-reach-checks"]
     for f in filters:
         cmd += ["--harness", f]
-    logf = os.path.join(workdir, "codegen_%s.log" % geo)
+    logf = os.path.join(workdir, "codegen_%s%s.log" % (geo, tag))
     rc, dt, _ = run(cmd, env=env, cwd=REPO, timeout=1800, out=logf)
     if rc != 0:
         return None, dt, logf
@@ -389,26 +389,40 @@ def main():
     filters = spec["filters"]
     harnesses = []
     codegen_s = {}
-    with concurrent.futures.ThreadPoolExecutor(max_workers=len(geos)) as ex:
-        futs = {g: ex.submit(codegen, check_id, g, filters, workdir, tier) for g in geos}
-        for g, fu in futs.items():
+    # harnesses are lowered in groups (separate kani builds): a source change that breaks the binding
+    # of one group's stub (e.g. a new signature of the private crc32) must not take the un-stubbed
+    # harnesses of another group down with it
+    groups_spec = spec.get("codegen_groups", {})
+    builds = []
+    for g in geos:
+        gl = groups_spec.get(g) or [filters]
+        for gi, flt in enumerate(gl):
+            builds.append((g, flt, ("_g%d" % gi) if len(gl) > 1 else ""))
+    codegen_failed = []
+    with concurrent.futures.ThreadPoolExecutor(max_workers=max(1, len(builds))) as ex:
+        futs = [(b, ex.submit(codegen, check_id, b[0], b[1], workdir, tier, b[2])) for b in builds]
+        for (g, flt, tag), fu in futs:
             hs, dt, logf = fu.result()
-            codegen_s[g] = round(dt, 1)
+            codegen_s[g + tag] = round(dt, 1)
             if hs is None:
-                log("INCONCLUSIVE property=%s codegen failed for geometry %s, see %s" % (check_id, g, logf))
-                tail = open(logf, errors="replace").read()[-3000:]
-                log(tail)
-                write_evidence(evid_path, check_id, tier, seed, spec, [], time.time() - t_start, 0,
-                               "codegen failed", codegen_s)
-                return 2
+                tail = open(logf, errors="replace").read()
+                errs = [l for l in tail.splitlines() if l.startswith("error")][:3]
+                log("  codegen FAILED for geometry %s group %s: %s (log %s)" % (g, flt, " | ".join(errs)[:400], logf))
+                codegen_failed.append({"harness": "codegen[%s%s]" % (g, tag), "geo": g, "solver": "-", "status": "inconclusive",
+                                       "details": ["kani codegen failed for harness group %s: %s" % (flt, " | ".join(errs)[:300])],
+                                       "wall_s": round(dt, 1), "log": logf})
+                continue
             for h in hs:
                 h["geo"] = g
                 h["short"] = h["pretty_name"].split("::")[-1]
-                harnesses.append(h)
+                if not any(x["short"] == h["short"] and x["geo"] == g for x in harnesses):
+                    harnesses.append(h)
     selected = []
     for g, pat in tspec["harnesses"]:
         m = [h for h in harnesses if h["geo"] == g and fnmatch.fnmatch(h["short"], pat)]
         if not m:
+            if codegen_failed:
+                continue  # its group did not build: already recorded as inconclusive
             log("INCONCLUSIVE property=%s no harness matches %s at geometry %s" % (check_id, pat, g))
             return 2
         for h in m:
@@ -454,6 +468,7 @@ def main():
     known = [k for k in load_known_findings() if k.get("property") == check_id and k.get("status") == "open"]
     violations, inconclusive = [], []
     exit_code = 0
+    results = codegen_failed + results
     for r in results:
         if r["status"] == "inconclusive":
             inconclusive.append(r)
@@ -514,8 +529,9 @@ def main():
 def write_evidence(path, check_id, tier, seed, spec, results, wall, n_viol, note, codegen_s):
     held = [r for r in results if r["status"] == "held"]
     marks = {}
+    base_solver = next((r["solver"] for r in results if r["solver"] != "-"), "cadical")
     for r in results:
-        if r["solver"] != (results[0]["solver"] if results else "cadical"):
+        if r["solver"] != base_solver:
             continue
         for k, v in r.get("marks", {}).items():
             marks[k] = marks.get(k, 0) + v
